@@ -197,6 +197,55 @@ theorem emit_items (F : Funs M Mask) (tag : String) (old new : Option Ref) (subs
     · simp only [emit, hl] at h ⊢
       exact ih s x h
 
+/-! ### emitOnly (PullID subscribers) -/
+
+theorem emitOnly_ext (F : Funs M Mask) (id : Nat) (new : Ref) (subs : List (Sub Mask)) :
+    ∀ s : St M Mask, Ext s (emitOnly F id new s subs).1 [] [new] := by
+  induction subs with
+  | nil => intro s; exact (Ext.refl s).mono (fun _ h => h) (fun _ h => by simp at h)
+  | cons sub rest ih =>
+    intro s
+    by_cases hl : (sub.live && sub.only == some id) = true
+    · have a := deliver_ext F sub.mask s (some new)
+      have c := ih (deliver F sub.mask s (some new)).1
+      simp only [emitOnly, hl, if_true]
+      refine (a.trans c).mono (fun _ h => by simp at h) (fun r h => ?_)
+      simp at h
+      simp [h]
+    · simp only [emitOnly, hl]
+      exact ih s
+
+theorem emitOnly_store (F : Funs M Mask) (id : Nat) (new : Ref) (subs : List (Sub Mask)) :
+    ∀ s : St M Mask, (emitOnly F id new s subs).1.val = s.val ∧ (emitOnly F id new s subs).1.coll = s.coll ∧
+      (emitOnly F id new s subs).1.vsubs = s.vsubs ∧ (emitOnly F id new s subs).1.csubs = s.csubs := by
+  induction subs with
+  | nil => intro s; simp [emitOnly]
+  | cons sub rest ih =>
+    intro s
+    by_cases hl : (sub.live && sub.only == some id) = true
+    · have a := deliver_store F sub.mask s (some new)
+      have c := ih (deliver F sub.mask s (some new)).1
+      simp only [emitOnly, hl, if_true]
+      exact ⟨c.1.trans a.1, c.2.1.trans a.2.1, c.2.2.1.trans a.2.2.1, c.2.2.2.trans a.2.2.2⟩
+    · simp only [emitOnly, hl]
+      exact ih s
+
+theorem emitOnly_items (F : Funs M Mask) (id : Nat) (new : Ref) (subs : List (Sub Mask)) :
+    ∀ (s : St M Mask) (x : Ref), Item.msg x ∈ (emitOnly F id new s subs).2 → x ∈ (emitOnly F id new s subs).1.pub := by
+  induction subs with
+  | nil => intro s x h; simp [emitOnly] at h
+  | cons sub rest ih =>
+    intro s x h
+    by_cases hl : (sub.live && sub.only == some id) = true
+    · simp only [emitOnly, hl, if_true, List.mem_cons] at h ⊢
+      rcases h with h | h | h
+      · cases h
+      · have := deliver_item F sub.mask s (some new) x h.symm
+        exact (emitOnly_ext F id new rest _).pub_old x this
+      · exact ih _ x h
+    · simp only [emitOnly, hl] at h ⊢
+      exact ih s x h
+
 /-! ### the change pipeline -/
 
 theorem runCb_frame (cb : Option (Cb M)) (hp : ∀ f, cb = some f → OldPure f) (h : Heap M) (o : Option Ref) (n r : Ref)
